@@ -28,6 +28,7 @@ pub fn run(prop: &str, sk: &Skeleton) -> Leaf {
         "C16" => order::c16(sk),
         "C14" => text::c14(sk),
         "C18" => convert::c18(sk),
+        "C18bytes" => convert::c18_bytes(sk),
         "C19" => convert::c19(sk),
         "C15" => text::c15(sk),
         "C17" => text::c17(sk),
